@@ -9,12 +9,13 @@ EXPLANATION = ('Static rules: T2 every function that turns a deadline `at: Insta
                'saturating/checked_duration_since(now)), never now − deadline (at.elapsed(), now.duration_since(at)); T3 delay forwards errors '
                'immediately and schedules items and completion, observe_on schedules all three, each task delivering exactly its notification; '
                'T4 the delay handed to Scheduler::schedule is Some(<the operator\'s delay field>) for delay/delay_subscription and None for '
-               'observe_on/subscribe_on (that the scheduler waits for it is C19.H2). Declined: order preservation "whatever order the '
+               'observe_on/subscribe_on (that the scheduler waits for it is C19.H2). T5 an operator observer only appends to the MultiSubscription it shares with the returned subscription and never unsubscribes it (otherwise the task carrying the terminal is cancelled on append). Declined: order preservation "whatever order the '
                'scheduler runs its ready tasks in" — each notification is an independent task and nothing re-sequences them, which on a '
                'k-worker pool quantifies over executor run orders that no static argument here bounds.')
 ASSUMPTIONS = ['Instant arithmetic as documented in std']
 
-CONTROLS = ['T2|verif_controls::wait_until_backwards', 'T4|<verif_controls::NoDelayObserver<O, SD> as Observer>::next']
+CONTROLS = ['T2|verif_controls::wait_until_backwards', 'T4|<verif_controls::NoDelayObserver<O, SD> as Observer>::next',
+            'T5|<verif_controls::ClosesSharedMulti<O> as Observer>::error']
 CONTROLS_OK = ['T2|verif_controls::wait_until_forwards']
 
 INSTANT = 'std::time::Instant'
@@ -44,7 +45,7 @@ SUB_SPEC = {
 
 
 def check(cx):
-    return t2(cx) + t34(cx)
+    return t2(cx) + t34(cx) + t5(cx)
 
 
 def t2(cx):
@@ -161,4 +162,37 @@ def t34(cx):
     for tag in SUB_SPEC:
         if tag not in seen:
             res.append(Finding(ID, 'T4', 'table:' + tag, False, 'table entry matches no impl (fail closed)'))
+    return res
+
+
+def t5(cx, prop=None, rule='T5'):
+    """ownership of the shared composite: an operator observer only ever *adds* task handles to the MultiSubscription it shares
+    with the subscription handed back to the subscriber; only the subscriber may unsubscribe it. If the observer closes it,
+    every handle appended afterwards (e.g. the task carrying the terminal) is torn down at once."""
+    from ..core import UNSUB_NAMES, recv_class
+    F = cx.facts
+    res = []
+    n = 0
+    for im in cx.observer_impls():
+        tag = roles.impl_tag(cx, im)
+        multis = [f for f, t in roles.adt_fields(cx, tag) if F.adt_path(t) in ('subscription::MultiSubscription', 'subscription::MultiSubscriptionThreads')]
+        if not multis:
+            continue
+        for meth in ('next', 'error', 'complete'):
+            fn = cx.method(im, meth)
+            g = cx.graph(fn['key'])
+            n += 1
+            def through_clone(e):
+                e = strip(e)
+                while e[0] == 'call' and e[1] == 'std::clone::Clone::clone' and e[2]:
+                    e = strip(e[2][0])
+                return e
+            bad = [x for x in g.nodes if x['kind'] in ('call', 'enter') and not x['ctx'] and x['name'] in UNSUB_NAMES and x['args'] and
+                   recv_class(through_clone(x['args'][0])).split('.')[-1] in multis]
+            res.append(Finding(prop or ID, rule, cx.label(fn), not bad,
+                               'only appends to the shared composite' if not bad else
+                               'the observer unsubscribes the composite it shares with the returned subscription: handles appended afterwards (the task that carries the terminal) are cancelled at once, so the terminal is lost',
+                               g.loc(bad[0]) if bad else fn['span'], [node_desc(g, x) for x in bad]))
+    if not cx.control and n < 18:
+        res.append(Finding(prop or ID, rule, 'floor', False, 'expected >= 18 observer methods sharing a composite, found %d' % n))
     return res
